@@ -1,7 +1,7 @@
 PROP = dict(
     id="C08",
     lean_modules=["TongoProofs.C08", "TongoProofs.C08Gen"],
-    gen=["TlbTypes"],
+    gen=["TldTypes"],
     spec_ops=(),
     rule="TL: every type with an UnmarshalTL in liteclient (registry re-checked against the source with go/ast on every run) plus "
          "synthetic types for the generic decoder x {valid encodings from the real Marshal, truncation at every offset, bit "
@@ -29,8 +29,14 @@ PROP = dict(
         "agent tlb's model of the reflection decoder lean/TongoModel/Tlb/{Ty,Basic,Prims,Dec}.lean and translator X1 "
         "(TongoGen/TlbTypes.lean), tied to the code by property C03's correspondence; lean/TongoModel/Tlb/DecTotal.lean "
         "(weights, ranks, productivity check, fuel bound) is definitions only",
-        "TL descriptors (field order, mode bits, sum tags, request tag table) regenerated from liteclient/generated.go by "
-        "go/ast and from reflection on every run; a construct outside the translator's subset fails the run",
+        "translator TldTypes (harness/cmd/extract/tld.go + harness/tldesc, the code the harness derives its op-line "
+        "descriptors from): TL descriptors (field order, mode bits, sum tags, request tag table) regenerated from "
+        "liteclient/generated.go by go/ast and from reflection on every run into lean/TongoGen/TldTypes.lean; a construct "
+        "outside the translator's subset fails the run; each generated term is tied to the text form on the op lines by a "
+        "kernel-checked `show_<Name>` and by the model echoing the printed form of what it parsed (tld.consts)",
+        "agent bits' bridge lean/TongoProofs/Lemmas/BitsBridgeRd.lean (rd_readBit, rd_readUint(_full), rd_readBits(_full), "
+        "rd_skip(_full), rd_readUnary, rd_minBits): the ideal-level reader Tlb.Rd of TlbRead.lean refines C06's byte-level "
+        "model of the repaired boc.BitString (negative width = ErrNegativeBitLen first, then > 64, then availability)",
         "runtime.MemStats.TotalAlloc and wall-clock deadlines as the measure of allocation and time on the Go side",
         "in-process ADNL lite server (copied from agent net's harness) used to drive liteapi.Client.GetTransactions",
     ],
@@ -40,15 +46,30 @@ PROP = dict(
         "model steps count decoder calls, loop iterations, read calls and bytes copied",
         "element decoders (hashmap values/keys/extras, top-of-stack values, Maybe/Either/Ref payloads) are parameters of the "
         "TL-B theorems, assumed not to panic",
+        "64-bit int: int(uint32) from the wire is not negative (on a 32-bit platform a TL vector count >= 2^31 would skip "
+        "the loop and a byte-string length >= 2^31 would reach make with a negative size)",
+        "reflect panics that depend on the Go type alone and not on the input (FieldByName(\"SumType\").SetString on a "
+        "non-string field, unexported fields) are outside the TL model (`Ty` is the shape the decoder sees): every "
+        "alternative of every shipped sum type is decoded from an accepted encoding on every run instead",
+        "Go stack depth is not modelled: recursion depth is bounded by theorems only as fuel/depth of the tree (the known "
+        "fatal stack overflow of tlb.HashMapAugExtraList is a divergence of the model, not a stack bound)",
+        "Helpers08.lean abstracts the index helpers to their guards over Nat lengths (content: `i < n` before `a[i]`); the "
+        "surrounding Go (what the lengths are lengths of) is tied by the h.* correspondence lines only",
         "exotic cells are well formed (what the bag-of-cells parser will accept once the C07 fixes are merged); malformed "
         "exotic cells make Cell.Hash() panic (boc/immutable_cell.go): known finding, kept in a separate stream",
     ],
     partial=[
+        "TRUE BY CONSTRUCTION, renamed and not counted as evidence of panic freedom: tlb_prims_total_by_construction, "
+        "label_total_by_construction, countLeafs_total_by_construction, binTree_total_by_construction, "
+        "vmStackList_total_by_construction, maybe_either_ref_total_by_construction — their models have no panic source "
+        "other than the element decoders, which are assumed not to panic; what they do state is the shape of the walk (at "
+        "most one visit per cell). Live panics are discharged only by tl_decode_total (u32le/u64le/sliceTo), helpers_total "
+        "(decodeLength/processQueryAnswer slices), the index-helper theorems and hashmap_total",
         "generic TL-B decoder: tlb_decode_total is about agent tlb's model Tongo.Tlb.decode (tied to tlb/decoder.go by C03's "
-        "correspondence, not by this property); where a descriptor contains an `opaque`/`encErr`/non-empty `dictE` node the "
-        "model stops with an error, so the theorem says nothing about the Go code behind it: non-empty Hashmap/HashmapE/"
-        "HashmapAug(E) (walk and labels: hashmap_total, countLeafs_total, label_total), BinTree, ChunkedData (binTree_total, "
-        "snake_steps), BlockInfo, McBlockExtra, McStateExtraOther, ValueFlow, ShardState, CryptoSignature, DNSRecord, "
+        "correspondence, not by this property); where a descriptor contains an `opaque`/`encErr` node the model stops with an "
+        "error, so the theorem says nothing about the Go code behind it; my own models of the customs cover the Hashmap "
+        "family (walk and labels: hashmap_total), SnakeData/ChunkedData (snake_steps), BinTree and the VM stack list "
+        "(tlb_custom_alloc), NOT: BlockInfo, McBlockExtra, McStateExtraOther, ValueFlow, ShardState, CryptoSignature, DNSRecord, "
         "DNSText, VmStkTuple/VmTuple/VmCont, abi.InMsgBody/ExtOutMsgBody/JettonPayload/NFTPayload/W5Actions/"
         "W5ExtendedActions/WalletV1ToV4Payload, wallet.PayloadHighload/W5ExtendedActions/TextComment: fault-injection "
         "oracles only (go.tlb.fuzz / go.tlb.flags / go.tlb.one / go.abi.dec / go.proof), with every flag branch seeded "
@@ -57,21 +78,27 @@ PROP = dict(
         "tlb_decode_steps bounds the DEPTH of the decoder's recursion (fuel), linear in the cells of the unfolded tree; the "
         "TOTAL number of decoder calls is not bounded by a theorem (needs an instrumented copy of the decoder): time is "
         "checked by the deadline oracles",
+        "TL-B allocation: tlb_custom_alloc covers the three customs whose allocation is not one value per cell (VM stack "
+        "list, BinTree, SnakeData); there is NO allocation theorem for the reflection decoder or the other customs (oracle "
+        "TotalAlloc <= 64*|unfolded tree| + 1 MiB only)",
+        "NO theorem at all (oracles only): block-header / account-state proof decoders (only the index arithmetic of "
+        "accountFromProof, with nValues = nKeys as the dictionary decoder guarantees), abi message decoders, the ~120 "
+        "get-method result decoders",
         "no unconditional `decode != panic` theorem is claimed for the generic decoder: in agent tlb's model no path "
         "constructs a panic, the statement would be true by construction; the partiality that IS modelled is divergence "
         "(fuel), and Go-side reflect panics (CanSet, nil cell from a custom decoder) are covered by the oracles",
-        "tl_decode_alloc / tl_decode_steps need ty.wf (every vector element consumes >= 1 byte): true of every shipped "
-        "descriptor (checked per descriptor on every run, op tld.consts); for zero-width elements the step bound is FALSE "
+        "tl_decode_alloc / tl_decode_steps need ty.wf (every vector element consumes >= 1 byte): proved of every shipped "
+        "descriptor (wf_<Name> and liteapi_consts, decided by the kernel on the regenerated table on every run); for zero-width elements the step bound is FALSE "
         "(theorem tl_steps_zero_width_elements: 4 bytes drive up to 2^32-1 iterations) — recorded as a limit, not repaired",
-        "the constants of the TL bounds depend on the type (largest shipped: allocA 1186 bytes per input byte and allocB "
-        "160 KiB for liteServer.partialBlockProof; stepK 115): the Go-side budget 64*|input| + 1 MiB is an oracle on "
+        "the constants of the TL bounds depend on the type (largest shipped, theorem liteapi_consts_values: allocA 1186 bytes "
+        "per input byte and allocB 160336 for liteServer.partialBlockProof; stepK 115, stepS 123): the Go-side budget 64*|input| + 1 MiB is an oracle on "
         "measurements, not a consequence of the theorem",
         "respTag (the tag/body split at the head of every generated client method) is proved on the model only; the "
         "generated client methods need a connection and are exercised only through GetTransactions",
         "time is measured against deadlines on the Go side (200 ms + 50 us per unfolded cell; 200 ms + 20 us per TL byte); "
         "the proved bounds are on model steps",
         "branches of hand-written UnmarshalTLB methods not reached by any ACCEPTED seed are listed in evidence/C08_branches.txt "
-        "(tools_c08_branches.py, coverage-instrumented harness): 316 of 361 non-error blocks reached, 37 of 56 methods "
+        "(tools_c08_branches.py, coverage-instrumented harness): 349 of 358 non-error blocks reached, 48 of 56 methods "
         "completely; VmCont/VmTuple have no valid encoding (decoders return 'not implemented')",
         "tl.Marshal panics on a struct with an unexported field (reflect.Value.Interface): encoder side, user types only, "
         "not untrusted input — noted, not counted",
@@ -80,9 +107,15 @@ PROP = dict(
     level_text=(
         "THEOREMS for all inputs (Lean 4, no sorry, axioms propext/Classical.choice/Quot.sound): "
         "(TL) tl_decode_total: for EVERY type descriptor (generic kinds, generated structs with mode-conditional fields, sum "
-        "types, pointer fields, unsupported kinds) and every byte string the repaired decoder returns a value or an error; "
+        "types, pointer fields, unsupported kinds) and every byte string the repaired decoder returns a value or an error — "
+        "the model carries the byte-level partial operations of the Go code (binary.LittleEndian.Uint32/Uint64 on the "
+        "buffer io.ReadFull returned, chunk[:k] in readN; tl_partial_ops_live: they do panic out of range) and the proof "
+        "discharges them; panics of reflect that depend on the Go type only are NOT in the model (assumptions); "
         "tl_decode_alloc / tl_decode_alloc_ok / tl_decode_steps: allocation and steps linear in the input with constants "
-        "computed from the descriptor; the defects of the code as found are theorems with witnesses "
+        "computed from the descriptor; INSTANTIATED on the regenerated table (TongoGen.TldTypes: 73 descriptors, 29 request "
+        "tags; wf_<Name>, show_<Name>, all_wf) by liteapi_decode_bounded / liteapi_type_decode_bounded / "
+        "liteapi_request_decode_bounded: no panic, alloc <= 1186*|bs| + 160336, steps <= 115*|bs| + 123 for every shipped "
+        "type (liteapi_consts, liteapi_consts_values); the defects of the code as found are theorems with witnesses "
         "(tl_alloc_orig_bytes_violates: fe ff ff ff requests 16 MiB; tl_alloc_orig_vector_violates: ff ff ff ff requests "
         "2^32-1 elements; tl_decode_orig_panics_on_pointer_field), each replayed on Go. "
         "(helpers) helpers_total + processQueryAnswer_length: decodeLength, processQueryAnswer, respTag, "
@@ -90,11 +123,15 @@ PROP = dict(
         "getTransactions_total, firstRoot_total, vmCellSlice_decoded_total, tuple_total with the panicking originals as "
         "witness theorems (getTransactions_orig_panics, firstRoot_orig_panics, tuple_orig_nil_panics, "
         "vmCellSlice_zero_panics). "
-        "(TL-B, modelled customs) tlb_prims_total, label_total (any claimed key size, negative included), hashmap_total, "
-        "countLeafs_total, snake_steps (+ snake_orig_quadratic: the decoder as found copies b*d(d+1)/2 bits on a chain), "
-        "binTree_total, vmStackList_total, maybe_either_ref_total: no panic and at most one visit per cell of the unfolded "
-        "tree, with the element decoders as parameters. "
-        "TIE: 13k lines per quick run executed on the real code and on the compiled model and compared exactly (outcome "
+        "(TL-B, modelled customs; TlbRead.lean follows the repaired readers: tlb_prims_negative_width_is_error) "
+        "hashmap_total (the live panic: boc.NewCellWithBits(key) beyond 1023 bits, excluded by keySize <= 1023 and the "
+        "capacity of the key prefix), snake_steps (+ snake_orig_quadratic: the decoder as "
+        "found copies b*d(d+1)/2 bits on a chain); tlb_custom_alloc: the repaired VM stack list decoder allocates <= 2 "
+        "values per cell, BinTree <= 1 leaf slot per cell, SnakeData copies <= the data it returns; the code as found is "
+        "quadratic (vmstack_orig_quadratic, bintree_orig_quadratic: d(d+1)/2 copies on a chain / comb of depth d, both "
+        "repaired in this round) and the pre-allocation `make(.., 0, depth)` from the depth field violates any bound "
+        "(vmstack_prealloc_violates). The six *_by_construction theorems are shape facts only (see `partial`). "
+        "TIE: ~13k lines per quick run executed on the real code and on the compiled model and compared exactly (outcome "
         "class, bytes consumed, allocation class for TL; decoded keys / data / counts for the TL-B customs; helper "
         "outcomes). "
         "(TL-B, generic decoder — agent tlb's model) tlb_decode_total: for every PRODUCTIVE type environment (decidable "
